@@ -565,7 +565,7 @@ def main(argv=None):
     ap.add_argument("--jobs", type=int, default=int(os.environ.get("VERIF_JOBS", "0")) or min(16, os.cpu_count() or 4))
     ap.add_argument("--runs", type=int)
     ap.add_argument("--seed", type=int)
-    args = ap.parse_args(argv)
+    args = ap.parse_intermixed_args(argv)
     seed = args.seed
     if seed is None:
         try:
